@@ -51,7 +51,9 @@ RULE = ("transparency / re-run: schedules of props/C09.gen_schedule (1/128 s tic
         "(incl. scale/misalignment) x both altitude modes x model objects fresh / carrying estimates; small-error "
         "sweep: one 20 s manoeuvring data set per altitude mode with full sensor models + 12 s data sets with fixed partial "
         "enable masks (bias triads with a leading disabled axis, off-diagonal-only / partial-diagonal scale-misalignment) "
-        "and masks drawn from the whole enable space, eps in {1, 0.1, 0.01, 0.001}; a case is distinct "
+        "and masks drawn from the whole enable space + 6 s data sets on other time grids (time step not a multiple of / "
+        "below the IMU period, non-uniform IMU sampling, no measurements, feedforward trajectory = every 2nd / 5th row of "
+        "the integrated samples with scale-misalignment states), eps in {1, 0.1, 0.01, 0.001}; a case is distinct "
         "by (schedule key, masks, flags)")
 
 DEN = B.DEN
@@ -207,7 +209,7 @@ def work_transparent(c):
             pollute(am, rng)
         plain = strapdown.Integrator(inp['initial'], bool(sc['alt'])).integrate(inp['increments'])
         # recorder
-        log = dict(correct=0, set_pva=0, update=0, batches=[], raw=[], identity=True)
+        log = dict(correct=0, set_pva=0, update=0, batches=[], raw=[], identity=True, deltas=[], ends=[])
         o_correct, o_set, o_upd = kalman.correct, strapdown.Integrator.set_pva, inertial_sensor.EstimationModel.update_estimates
         o_int, o_ci = strapdown.Integrator.integrate, filters._correct_increments
 
@@ -225,7 +227,14 @@ def work_transparent(c):
 
         def integ(self, increments):
             log['batches'].append(np.asarray(increments.index, dtype=float).tobytes())
+            log['ends'].append((float(self.get_time()), float(increments.index[-1]) if len(increments) else float('nan')))
             return o_int(self, increments)
+
+        o_epm = filters._compute_error_propagation_matrices
+
+        def epm(pva, gyro, accel, time_delta, *a, **k):
+            log['deltas'].append(float(time_delta))
+            return o_epm(pva, gyro, accel, time_delta, *a, **k)
 
         def ci(increments, gyro_model, accel_model):
             res = o_ci(increments, gyro_model, accel_model)
@@ -238,6 +247,7 @@ def work_transparent(c):
         kalman.correct, strapdown.Integrator.set_pva = correct, set_pva
         inertial_sensor.EstimationModel.update_estimates = upd
         strapdown.Integrator.integrate, filters._correct_increments = integ, ci
+        filters._compute_error_propagation_matrices = epm
         try:
             with S.Watchdog([filters.run_feedback_filter.__code__], budget, 120):
                 res = filters.run_feedback_filter(inp['initial'], *c['sig'], inp['increments'], **fb_kwargs(c, inp, gm, am))
@@ -245,6 +255,7 @@ def work_transparent(c):
             kalman.correct, strapdown.Integrator.set_pva = o_correct, o_set
             inertial_sensor.EstimationModel.update_estimates = o_upd
             strapdown.Integrator.integrate, filters._correct_increments = o_int, o_ci
+            filters._compute_error_propagation_matrices = o_epm
         # log['batches'][0] belongs to the plain integration? no: plain ran before patching
         if frame_bytes(res.trajectory) != frame_bytes(plain):
             out['fails'].append("feedback trajectory without measurements in [start, end) is not bit-identical to "
@@ -254,6 +265,12 @@ def work_transparent(c):
                                 f"update_estimates={log['update']}")
         if b''.join(log['batches']) != np.asarray(inp['increments'].index, dtype=float).tobytes():
             out['model'].append("the concatenation of the integrated batches is not the increment table in order")
+        spans = [b - a for a, b in log['ends']]
+        if log['deltas'] != spans:
+            bad = [(i, d, sp) for i, (d, sp) in enumerate(zip(log['deltas'], spans)) if d != sp][:3]
+            out['model'].append("time_delta handed to _compute_error_propagation_matrices is not the integrator time after "
+                                f"minus the time before the batch (call, time_delta, integrated span): {bad} "
+                                f"({len(log['deltas'])} calls, {len(spans)} batches)")
         if not log['identity']:
             out['model'].append("_correct_increments with reset estimates changed the increments")
         for m in (gm, am):
@@ -350,8 +367,26 @@ def mask_of(name):
                 gs=[int(rng.random() < 0.25) for _ in range(9)], as_=[int(rng.random() < 0.25) for _ in range(9)])
 
 
-def sweep_run(eps, alt, seed, mask='full', dt=1.0 / 32, T=20.0, step=0.25):
+# time-grid variants of the sweep.  dt0 = 1/64 s is the grid of the simulated truth; the IMU samples are a
+# sub-set of it.  imu: ('uniform', stride) | ('nonuniform', [strides cycled]); step: covariance time step in s;
+# meas: 'on' (epochs on IMU samples that are also rows of the feedforward trajectory) | 'none';
+# sub: the feedforward filter gets every sub-th row of the computed trajectory (the increment table stays complete)
+VARIANTS = {
+    'base': dict(imu=('uniform', 2), step=0.25, meas='on', sub=1),
+    'step-not-multiple': dict(imu=('uniform', 2), step=0.08, meas='on', sub=1),          # 2.56 IMU periods
+    'step-below-imu': dict(imu=('uniform', 2), step=0.02, meas='on', sub=1),             # 0.64 IMU period
+    'nonuniform-imu': dict(imu=('nonuniform', [1, 3, 2, 2, 5, 1, 2]), step=0.11, meas='on', sub=1),
+    'no-measurements': dict(imu=('uniform', 2), step=0.08, meas='none', sub=1),
+    'traj-every-2nd': dict(imu=('uniform', 2), step=0.08, meas='on', sub=2),
+    'traj-every-5th': dict(imu=('uniform', 2), step=0.16, meas='on', sub=5),           # 5.12 IMU periods
+}
+DT0 = 1.0 / 64
+
+
+def sweep_run(eps, alt, seed, mask='full', variant='base', T=20.0):
     """normalised signed disagreement vectors of one error scale"""
+    var = VARIANTS[variant]
+    step, sub = var['step'], var['sub']
     mk = mask_of(mask)
     gb, ab = np.array(mk['gb'], float), np.array(mk['ab'], float)
     gs, as_ = np.array(mk['gs'], float).reshape(3, 3), np.array(mk['as_'], float).reshape(3, 3)
@@ -360,8 +395,17 @@ def sweep_run(eps, alt, seed, mask='full', dt=1.0 / 32, T=20.0, step=0.25):
     # without altitude the filters assume level flight (VD = 0, constant altitude): the truth must satisfy it,
     # otherwise the un-modelled vertical motion is an error source that does not scale with eps
     vz = (0.2, 0.5) if alt else (0.0, 0.0)
-    traj, imu = sim.generate_sine_velocity_motion(dt, T, [50, 60, 100], [5, -3, vz[0]], [3, 3, vz[1]],
+    traj, imu = sim.generate_sine_velocity_motion(DT0, T, [50, 60, 100], [5, -3, vz[0]], [3, 3, vz[1]],
                                                   velocity_change_period=30)
+    kind, strides = var['imu']
+    sel, j = [0], 0
+    while True:
+        nxt = sel[-1] + (strides if kind == 'uniform' else strides[j % len(strides)])
+        j += 1
+        if nxt >= len(traj):
+            break
+        sel.append(nxt)
+    traj, imu = traj.iloc[sel], imu.iloc[sel]
     rs = np.random.RandomState(1000 + seed)
     dirs = rs.uniform(-1, 1, size=15)
     dirs = np.sign(dirs) * (0.4 + 0.6 * np.abs(dirs))
@@ -378,13 +422,16 @@ def sweep_run(eps, alt, seed, mask='full', dt=1.0 / 32, T=20.0, step=0.25):
                     index=['north', 'east', 'down', 'VN', 'VE', 'VD', 'roll', 'pitch', 'heading'])
     init = sim.perturb_pva(traj.iloc[0], err)
     init.name = traj.index[0]
-    k = int(round(1.0 / dt))
-    rows = traj.iloc[k::k]
+    # measurement epochs: about one per second, on IMU samples whose row number is a multiple of `sub`
+    per = max(sub, int(round(1.0 / (float(traj.index[-1]) / (len(traj) - 1)))) // sub * sub)
+    rows = traj.iloc[per::per]
     rows = rows[rows.index < traj.index[-1]]
     pos = sim.generate_position_measurements(rows, eps * 1.0, rng=np.random.RandomState(seed))
     vel = sim.generate_ned_velocity_measurements(rows.iloc[::2], eps * 0.1, rng=np.random.RandomState(seed + 1))
 
     def meas():
+        if var['meas'] == 'none':
+            return []
         return [measurements.Position(pos, eps * 1.0), measurements.NedVelocity(vel, eps * 0.1)]
 
     def models():
@@ -397,9 +444,14 @@ def sweep_run(eps, alt, seed, mask='full', dt=1.0 / 32, T=20.0, step=0.25):
     fb = filters.run_feedback_filter(init, *sds, inc, g, a, measurements=meas(), time_step=step, with_altitude=alt)
     comp = strapdown.Integrator(init, alt).integrate(inc)
     g2, a2 = models()
-    ff = filters.run_feedforward_filter(comp, comp, *sds, g2, a2, measurements=meas(), increments=inc,
+    comp_ff = comp.iloc[::sub]
+    ff = filters.run_feedforward_filter(comp_ff, comp_ff, *sds, g2, a2, measurements=meas(), increments=inc,
                                         time_step=step, with_altitude=alt)
     idx = ff.trajectory.index.intersection(fb.trajectory_sd.index)
+    if sub == 1 and (len(idx) != len(ff.trajectory.index) or len(idx) != len(fb.trajectory_sd.index)):
+        raise RuntimeError("the two filters record different time grids on the same samples: "
+                           f"{len(ff.trajectory.index)} feedforward rows, {len(fb.trajectory_sd.index)} feedback rows, "
+                           f"{len(idx)} common")
     A_, B_, S_ = fb.trajectory.loc[idx], ff.trajectory.loc[idx], ff.trajectory_sd.loc[idx]
     rn, _, rp = earth.principal_radii(B_.lat, B_.alt)
     DEG = math.pi / 180
@@ -424,8 +476,8 @@ def rms(v):
     return float(np.sqrt(np.mean(np.square(v)))) if v.size else 0.0
 
 
-def sweep_job(alt, seed, mask='full', T=20.0):
-    return (bool(alt), int(seed), str(mask), float(T))
+def sweep_job(alt, seed, mask='full', T=20.0, variant='base'):
+    return (bool(alt), int(seed), str(mask), float(T), str(variant))
 
 
 def work_sweep(job):
@@ -433,9 +485,11 @@ def work_sweep(job):
     alt, seed = job[0], job[1]
     mask = job[2] if len(job) > 2 else 'full'
     T = job[3] if len(job) > 3 else 20.0
-    out = dict(status='ok', fails=[], alt=alt, seed=seed, mask=mask, T=T, masks=mask_of(mask))
+    variant = job[4] if len(job) > 4 else 'base'
+    out = dict(status='ok', fails=[], alt=alt, seed=seed, mask=mask, T=T, variant=variant, masks=mask_of(mask),
+               grid=VARIANTS[variant])
     try:
-        runs = [sweep_run(e, alt, seed, mask=mask, T=T) for e in EPS]
+        runs = [sweep_run(e, alt, seed, mask=mask, variant=variant, T=T) for e in EPS]
         if len({r_['rows'] for r_ in runs}) != 1 or runs[0]['rows'] < 10:
             out['status'] = 'harness-error'
             out['error'] = 'the two filters have too few common rows'
@@ -602,7 +656,9 @@ def process(r, cases, label, max_report=3):
         if isinstance(c, tuple):
             dist[f"sweep:alt={c[0]}"] += 1
             dist["sweep-mask:" + ('random' if str(c[2]).startswith('rand') else str(c[2]))] += 1
-            what = dict(sweep=dict(alt=c[0], seed=c[1], mask=c[2], T=c[3], masks=o.get('masks')))
+            dist["sweep-grid:" + str(c[4])] += 1
+            what = dict(sweep=dict(alt=c[0], seed=c[1], mask=c[2], T=c[3], variant=c[4], masks=o.get('masks'),
+                                   grid=o.get('grid')))
             r.case(('sweep',) + tuple(c), sample=dict(what, table=o.get('table')))
         else:
             sc = c['sched']
@@ -638,12 +694,22 @@ def sweep_jobs(seed, tier, salt=0):
     """full models in both altitude modes (20 s data set) + the fixed partial masks and masks drawn from the
     whole enable space (12 s data sets, altitude mode alternating)"""
     seeds = [seed] if tier == 'quick' else [seed, seed + 1, seed + 2]
-    jobs = [sweep_job(alt, sd + salt) for sd in seeds for alt in (True, False)]
+    jobs = [sweep_job(alt, sd + salt, 'full', 14.0 if tier == 'quick' else 20.0) for sd in seeds for alt in (True, False)]
     k = 0
     for sd in seeds:
         names = list(FIXED_MASKS) + [f"rand:{(sd + salt) * 10 + j}" for j in range(1 if tier == 'quick' else 6)]
         for nm in names:
             jobs.append(sweep_job((k + sd) % 2 == 0, sd + salt, nm, 12.0))
+            k += 1
+        # time-grid variants (6 s data sets): steps that are not multiples of / below the IMU period, a
+        # non-uniform IMU grid, no measurements at all, feedforward trajectory coarser than the increment table
+        # (with scale/misalignment states, so that the averages over the increments matter)
+        sm_mask = 'g[.yz]a[x.z]+sm-offdiag'
+        for v in [x for x in VARIANTS if x != 'base']:
+            alts = (True, False) if tier != 'quick' else ((k + sd) % 2 == 0,)
+            for alt in alts:
+                mask = sm_mask if v.startswith('traj') else ('full', 'g[x.z]a[.yz]', sm_mask)[k % 3]
+                jobs.append(sweep_job(alt, sd + salt, mask, 6.0, v))
             k += 1
     return jobs
 
@@ -686,7 +752,7 @@ def check(r):
     process(r, cases, 're-run')
     res = process(r, sweep_jobs(r.seed, r.tier), 'error-scale sweep')
     r.coverage['error_scale_sweep'] = [dict(alt=o.get('alt'), seed=o.get('seed'), mask=o.get('mask'), masks=o.get('masks'),
-                                            table=o.get('table')) for o in res]
+                                            variant=o.get('variant'), grid=o.get('grid'), table=o.get('table')) for o in res]
     cov_finish(r, r.linecov, r.linecov_measured)
     r.coverage['distribution'] = dict(sorted(r.coverage['distribution'].items()))
     if r.tier == 'thorough':
@@ -707,8 +773,8 @@ def falsify(r):
     found = 0
     for c, o in zip(cases, results):
         if o['fails']:
-            what = dict(sweep=dict(alt=c[0], seed=c[1], mask=c[2], T=c[3], masks=o.get('masks'))) if isinstance(c, tuple) \
-                else dict(case=c)
+            what = dict(sweep=dict(alt=c[0], seed=c[1], mask=c[2], T=c[3], variant=c[4], masks=o.get('masks'),
+                                   grid=o.get('grid'))) if isinstance(c, tuple) else dict(case=c)
             r.log(f"falsifier: {o['fails'][0]}")
             r.violation(o['fails'][0], dict(what, failures=o['fails']))
             found += 1
@@ -722,8 +788,9 @@ def replay(obj):
     warm_up()
     if 'sweep' in rep:
         sw = rep['sweep']
-        o = work_sweep(sweep_job(sw['alt'], sw['seed'], sw.get('mask', 'full'), sw.get('T', 20.0)))
-        print("error-scale sweep, eps =", list(EPS), "masks:", json.dumps(o.get('masks')))
+        o = work_sweep(sweep_job(sw['alt'], sw['seed'], sw.get('mask', 'full'), sw.get('T', 20.0), sw.get('variant', 'base')))
+        print("error-scale sweep, eps =", list(EPS), "masks:", json.dumps(o.get('masks')), "time grid:",
+              json.dumps(o.get('grid')))
         print(json.dumps(o.get('table'), indent=1))
     else:
         c = rep['case']
